@@ -136,6 +136,9 @@ def sspocOp : P SspocOp := do
   else if t == "upd" then do
     let n ← optPyCount; let thr ← optRat; let xy ← bool; let mag ← listOf rat
     pure (.update n thr xy mag)
+  else if t == "updr" then do
+    let n ← optPyCount; let thr ← optRat; let mag ← listOf rat
+    pure (.updateRefused n thr mag)
   else failure
 
 def showOptNat : Option Nat → String
